@@ -22,11 +22,14 @@ FUNCTIONS['fair'] = ['Kripke.get_fair_states.<locals>.is_a_fair_SCC', 'Kripke.ge
 FUNCTIONS['ltl'] = ['LTL.modelcheck']
 FUNCTIONS['ctls'] = ['_remove_state_subformulas', '_checkQuantifiedFormula', 'CTLS.modelcheck']
 FUNCTIONS['bdd'] = ['find_isomorph', 'BDDNode.__reset__', 'BDDNonTerminalNode.__reset__', 'BDDNonTerminalNode.__new__']
+FUNCTIONS['bddops'] = ['BDDNonTerminalNode.__invert__', 'BDDTerminalNode.__invert__', 'cache_restrict', 'compute_restrict',
+                       'apply', 'compute', 'BDDsons_and_BDD', 'BDD_and_BDDsons', 'BDDsons_and_BDDsons']
 PROPERTY_FUNCTIONS = {
     'C10': ['Parser.__call__'],
     'C02': ['LTL.modelcheck', 'LNot', 'Not.get_equivalent_restricted_formula'],
     'C03': ['_get_a_new_atomic_proposition_for', 'Kripke.labels'] + FUNCTIONS['ctls'] + ['Kripke.clone', 'LTL.modelcheck', 'LNot'],
     'C16': FUNCTIONS['bdd'],
+    'C17': FUNCTIONS['bddops'] + ['BDDNonTerminalNode.__new__', 'BDDNonTerminalNode.__reset__'],
     'C05': FUNCTIONS['rewrite'],
     # own functions + the callee contracts the labelling relies on directly (their owners C13/C14 verify the rest)
     'C01': FUNCTIONS['ctl'] + ['Kripke.labels', 'Kripke.states', 'Kripke.next', 'Kripke.transitions_iter',
@@ -71,7 +74,15 @@ TRUSTED = {
             'a collected node can only remove entries from the weak sets, which preserves uniqueness',
             'TB8 (Bryant canonicity): "no two registered non-terminals share (var, low, high)" + reducedness + orderedness imply "equal function iff same root"; not proved here',
             'object.__new__(cls) returns a new object of the non-terminal class, registered nowhere',
-            'BDDTerminalNode.__new__, apply/restrict/invert (C17) are not under proof: bounded only'],
+            'the node constructor also maintains the GHOST denotation invariant used by C17 (vf/pyvc/contracts_bdd.py den_inv); BDDTerminalNode.__new__ is assumed'],
+    'C17': ['denotation of a node = GHOST component written by sidecar ghost code at the exit of BDDNonTerminalNode.__reset__ (Shannon expansion of the children\'s denotations); '
+            'ghost invariant: every constructed node\'s stored denotation is the expansion of its children\'s / its constant',
+            'under proof for all nodes, operators, orderings and cache contents satisfying the cache invariant: __invert__ (both classes: complement), cache_restrict/compute_restrict (cofactor: den(res)(s) = den(f)(s[v:=b])), '
+            'apply/compute and the three decompositions (den(res)(s) = op(den(A)(s), den(B)(s)) for an arbitrary binary operator value); result caches (dictionaries keyed by node identity) by invariant',
+            'ASSUMED: BDDTerminalNode.__new__ (class-level dictionary Tnodes keyed by 0/1/False/True is not modelled): returns the terminal of the value and leaves constructed nodes as they are',
+            'NOT under proof (bounded only): orderedness of results (Ordering.in_order is uninterpreted: the decomposition chosen does not matter for the function computed), variables(), '
+            'the OBDD wrapper class (ordering compatibility -> RuntimeError), BDDNode.restrict\'s argument normalisation, garbage collection (TB7)',
+            'apply/compute may raise RuntimeError ("Unsupported configuration") when the ordering relates the two variables in no direction; the contract allows it without saying when'],
     'C02': ['only the wrapper LTL.modelcheck (object formula A g, F=None) is under proof: result = states all of whose paths satisfy g, GIVEN the assumed '
             'contract of _checkE_path_formula (result = states with some path satisfying the restricted formula) and the proved contracts of LNot / rewriting; '
             'the tableau (_get_closure, _build_atoms, _Tableu, _is_non_trivial_self_fulfilling) and TB9 are not within deductive reach: bounded only',
